@@ -664,6 +664,8 @@ def check_has_non_positive(rep, prog, fn):
                 return ex.var_of(s.c[1]) == wparam and ex.var_of(s.c[2]) in evars
             return False
 
+        thresholds = []
+
         def atomize(leaf):
             s = leaf.strip_all()
             if s.k == 'BinaryOperator' and s.op in ('<', '<=', '>', '>=', '==', '!='):
@@ -679,14 +681,27 @@ def check_has_non_positive(rep, prog, fn):
                     pass
                 elif is_w(b) and zero(za):
                     op = {'<': '>', '<=': '>=', '>': '<', '>=': '<=', '==': '==', '!=': '!='}[op]
+                elif (is_w(a) and zb.fvalue is not None) or (is_w(b) and za.fvalue is not None):
+                    thr = zb.fvalue if is_w(a) else za.fvalue
+                    thresholds.append((leaf, thr))
+                    return ex.f_atom(('threshold', leaf.i))
                 else:
                     return None
                 lt, eq, gt = ex.f_atom('lt'), ex.f_atom('eq'), ex.f_atom('gt')
                 return {'<': lt, '<=': ex.f_or(lt, eq), '>': gt, '>=': ex.f_or(gt, eq), '==': eq,
                         '!=': ex.f_or(lt, gt)}[op]
             return None
+        del thresholds[:]
         f = guards_formula(cfg, rt, lambda leaf: atomize(leaf) or (ex.TRUE if is_loop_cond(leaf, infos) else None))
         atoms = ex.f_atoms(f)
+        ex.f_eval(f, {a: True for a in atoms})
+        if thresholds:
+            leaf, thr = thresholds[0]
+            rep.violation(rule, leaf, fn, what,
+                          'the weight is compared with the non-zero constant %g: %s' % (
+                              thr, 'strictly positive weights below it are reported as non-positive' if thr > 0 else 'a zero weight is not reported'),
+                          key='%s|%s|threshold' % (rule, fn.g))
+            continue
         opaque = [a for a in atoms if isinstance(a, tuple)]
         if opaque:
             n = fn.nodes.get(opaque[0][1])
